@@ -10,7 +10,8 @@ from .sampler_steps import call
 numbers.Number.register(SV)
 
 KEYS = [None, 'a', 'x_1', 'x_2', 7]
-DISTS = ['range', 'frozen', 'number', 'link:a', 'link:x_1', 'link:zz', 'bad']
+DISTS = ['range', 'frozen', 'number', 'link:a', 'link:x_1', 'link:zz', 'bad',
+         'frozen_shared']
 
 
 class Frozen(object):
@@ -95,6 +96,13 @@ def declare(W, cfg):
         elif kind == 'frozen':
             dist = Frozen(W, step)
             payload = dist
+        elif kind == 'frozen_shared':
+            # the same distribution object used for several parameters
+            if not hasattr(W, 'shared_dist'):
+                W.shared_dist = Frozen(W, 99)
+            dist = W.shared_dist
+            payload = dist
+            kind = 'frozen'
         elif kind == 'number':
             dist = W.real('num_%d' % step)
             payload = dist
